@@ -66,6 +66,18 @@ class C09(Check):
             fixed.append({"kind": "dep-sequence-inline-cfg", "world_spec": {"files": files + [{"path": "setup.cfg", "manifest": names[mn]["idx"]}]},
                           "include": seqs[0][:2], "plugins": False, "path_include": None, "extra_findings": {},
                           "sched": {"seed": 0, "policy": "fifo", "line_p": 0.0}, "workers": None, "enum_seed": None})
+        # setup.py is both a dependency manifest and a source file that codemods rewrite
+        setup_src = 'from setuptools import setup\n\nNAMES = set([1, 2, 3])\n\n\ndef f(x=[]):\n    return f"hello"\n\n\nsetup(\n    name="x",\n    install_requires=[\n        "requests",\n    ],\n)\n'
+        for order in (["pixee:python/use-defusedxml", "pixee:python/use-set-literal", "pixee:python/fix-mutable-params"],
+                      ["pixee:python/use-set-literal", "pixee:python/url-sandbox", "pixee:python/remove-unnecessary-f-str"]):
+            files = [{"path": "setup.py", "raw": {"t": setup_src}}]
+            for ci, cid in enumerate(order):
+                if cid in W.DEP_CODEMODS:
+                    rr = G.pick_snippet(random.Random(f"c09-setup-{ci}"), cid)
+                    files.append({"path": f"pkg/m{ci}.py", "snippets": [rr["idx"]], "layout": {}})
+            fixed.append({"kind": "setup-py-manifest-and-source", "world_spec": {"files": files}, "include": order, "plugins": False,
+                          "path_include": None, "extra_findings": {}, "sched": {"seed": 0, "policy": "fifo", "line_p": 0.0}, "workers": None,
+                          "enum_seed": None})
         if tier != "thorough":
             return fixed
         # the whole default set on a world holding one snippet file per codemod
